@@ -251,8 +251,11 @@ def run_case(desc, ctx):
     for i, recs in enumerate(samples):
         wrap_ = rng.choice([0, 0, 10, 60])
 
+        hstyle = rng.choice(['plain', 'plain', 'plain', 'shared-first-word', 'identical', 'empty'])
+
         def put(name, rr):
-            txt = G.fasta_text(rr, wrap_)
+            hn = None if hstyle == 'plain' else [{'shared-first-word': 'ctg part %d' % j_, 'identical': 'contig_1', 'empty': ''}[hstyle] for j_ in range(len(rr))]
+            txt = G.fasta_text(rr, wrap_, hn)
             if crlf:
                 txt = txt.replace('\n', '\r\n')
             with open(ctx.path(name), 'w', newline='') as fh:
